@@ -473,6 +473,7 @@ fn build<K: Kmer + 'static>(name: &'static str, env: &Env) -> Vec<Box<dyn Job>> 
     v
 }
 
+#[cfg(not(fuzzing))]
 pub fn jobs(env: &Env) -> Vec<Box<dyn Job>> {
     let mut out: Vec<Box<dyn Job>> = Vec::new();
     crate::kmers_ge4!(build, out, env);
